@@ -34,3 +34,10 @@ Definition table_avoids (t : table) (n : string) : bool :=
 Definition entries_by (t : table) (n : string) (ev : string) : bool :=
   forallb (fun e => forallb (fun tr => state_avoids t n (snd tr) || String.eqb (fst tr) ev)
                             (st_events (snd e))) t.
+
+(* the Default state (before the first event) has no action: no transition leads back into it *)
+Definition default_inert (t : table) : bool :=
+  match lookup_state t EmptyString with
+  | Some sd => match st_action sd with Some _ => false | None => true end
+  | None => true
+  end.
